@@ -653,6 +653,9 @@ func metaGen() *rapid.Generator[[]s3c.KV] {
 			}
 			seen[k] = true
 			v := rapid.StringMatching(`[A-Za-z0-9=_.:/@-]{1,12}( [A-Za-z0-9=]{1,6})?`).Draw(t, "mv")
+			if rapid.IntRange(0, 5).Draw(t, "mv_empty") == 0 {
+				v = "" // an entry without a value is still an entry
+			}
 			out = append(out, s3c.KV{K: "x-amz-meta-" + k, V: v})
 		}
 		return out
